@@ -441,7 +441,7 @@ int main(int argc, char** argv) {
     run_class(mip_adapter(), depth, is);
     run_class(pip_adapter(), depth, is); }
 #elif VF_GROUP == 7
-  { const int ix[3] = {9, 8, 10};     // square sorted by == + pending vertex that sorts first, segment (both minimized + pending generator), pentagon sorted by == + pending constraint
+  { const int ix[3] = {9, 10, 1};     // square (both minimized, sorted by ==) + pending vertex that sorts first; pentagon (sorted by ==) + pending constraint; triangle
     run_class(x13::domain_alias_adapter<PPL::C_Polyhedron>("C_Polyhedron (aliased arguments, recycling)"), depth, ix);
     run_class(x13::domain_alias_adapter<PPL::NNC_Polyhedron>("NNC_Polyhedron (aliased arguments, recycling)"), depth, ix); }
 #elif VF_GROUP == 8
